@@ -1,2 +1,358 @@
-pub struct Srv;
-pub fn cmd_serve(_: &mut crate::State, _: &str) -> String { "TODO".into() }
+// In-process roughenough::server::Server on a loopback socket, owned by a named thread
+// (Server::new and the responders read thread::current().name()), driven by process_events().
+//
+//   serve new <batch_size> <fault_pct> <loglevel 0..5> <client_stats 0|1> <seedhex> [health 0|1]
+//   serve run <nsockets> <sock:hex;sock:hex;...>     send datagrams in order, process, collect
+//   serve scan <hex>,<hex>,...                       do captured logs / sent datagrams contain a pattern
+//   serve logs                                       dump captured log records (hex) and clear
+//   serve stats                                      totals of the stats recorder
+//   serve health <n>                                 n TCP connects in a burst, answers counted
+//   serve drop
+use std::net::UdpSocket as StdUdp;
+use std::panic::{catch_unwind, AssertUnwindSafe};
+use std::sync::mpsc::{channel, Receiver, Sender};
+use std::sync::{Arc, Mutex};
+use std::time::{Duration, SystemTime, UNIX_EPOCH};
+
+use log::{Level, LevelFilter, Log, Metadata, Record};
+use mio::Events;
+use roughenough::config::MemoryConfig;
+use roughenough::server::Server;
+use roughenough::stats::StatsQueue;
+
+use crate::util::{hex, unhex};
+
+// ---------------------------------------------------------------- capturing logger
+struct CapLogger;
+static LOGS: Mutex<Vec<(usize, String)>> = Mutex::new(Vec::new());
+static LOGGER: CapLogger = CapLogger;
+
+impl Log for CapLogger {
+    fn enabled(&self, m: &Metadata) -> bool {
+        m.level() <= log::max_level()
+    }
+    fn log(&self, r: &Record) {
+        // only the code under test (mio and friends log at trace level too)
+        if self.enabled(r.metadata()) && r.target().starts_with("roughenough") {
+            // formatting evaluates the arguments, exactly as a real logger would
+            let s = format!("{}", r.args());
+            let lvl = match r.level() {
+                Level::Error => 1,
+                Level::Warn => 2,
+                Level::Info => 3,
+                Level::Debug => 4,
+                Level::Trace => 5,
+            };
+            if let Ok(mut g) = LOGS.lock() {
+                g.push((lvl, s));
+            }
+        }
+    }
+    fn flush(&self) {}
+}
+
+fn set_level(l: u32) {
+    let _ = log::set_logger(&LOGGER);
+    log::set_max_level(match l {
+        0 => LevelFilter::Off,
+        1 => LevelFilter::Error,
+        2 => LevelFilter::Warn,
+        3 => LevelFilter::Info,
+        4 => LevelFilter::Debug,
+        _ => LevelFilter::Trace,
+    });
+}
+
+// ---------------------------------------------------------------- server thread
+enum Cmd {
+    Process,
+    Stats,
+    Quit,
+}
+
+pub struct Srv {
+    tx: Sender<Cmd>,
+    rx: Receiver<String>,
+    port: u16,
+    health_port: Option<u16>,
+    clients: Vec<StdUdp>,
+    sent_log: Vec<Vec<u8>>, // every datagram received back from the server
+    dead: bool,
+}
+
+fn now_us() -> u128 {
+    SystemTime::now().duration_since(UNIX_EPOCH).unwrap().as_micros()
+}
+
+fn free_tcp_port() -> u16 {
+    let l = std::net::TcpListener::bind("127.0.0.1:0").unwrap();
+    l.local_addr().unwrap().port()
+}
+
+fn stats_line(s: &dyn roughenough::stats::ServerStats) -> String {
+    format!(
+        "valid={} rfc={} classic={} invalid={} health={} failed={} retried={} resp={} rfcresp={} classicresp={} bytes={} clients={}",
+        s.total_valid_requests(),
+        s.num_rfc_requests(),
+        s.num_classic_requests(),
+        s.total_invalid_requests(),
+        s.total_health_checks(),
+        s.total_failed_send_attempts(),
+        s.total_retried_send_attempts(),
+        s.total_responses_sent(),
+        s.num_rfc_responses_sent(),
+        s.num_classic_responses_sent(),
+        s.total_bytes_sent(),
+        s.total_unique_clients()
+    )
+}
+
+fn start(batch: u8, fault: u8, level: u32, client_stats: bool, seed: Vec<u8>, health: bool) -> Result<(Srv, String), String> {
+    set_level(level);
+    LOGS.lock().unwrap().clear();
+    let std_sock = StdUdp::bind("127.0.0.1:0").map_err(|e| e.to_string())?;
+    std_sock.set_nonblocking(true).unwrap();
+    let port = std_sock.local_addr().unwrap().port();
+    let health_port = if health { Some(free_tcp_port()) } else { None };
+    let (tx, crx) = channel::<Cmd>();
+    let (rtx, rx) = channel::<String>();
+    let hp = health_port;
+    std::thread::Builder::new()
+        .name("worker-0".to_string())
+        .stack_size(8 * 1024 * 1024)
+        .spawn(move || {
+            let made = catch_unwind(AssertUnwindSafe(|| {
+                let mut cfg = MemoryConfig::new(port);
+                cfg.batch_size = batch;
+                cfg.fault_percentage = fault;
+                cfg.client_stats = client_stats;
+                cfg.seed = seed;
+                cfg.health_check_port = hp;
+                let sock = mio::net::UdpSocket::from_socket(std_sock).unwrap();
+                let q = Arc::new(StatsQueue::new(4));
+                Server::new(&cfg, sock, q)
+            }));
+            let mut server = match made {
+                Ok(s) => {
+                    rtx.send(format!("OK pk={}", s.get_public_key())).unwrap();
+                    s
+                }
+                Err(_) => {
+                    rtx.send("PANIC".to_string()).unwrap();
+                    return;
+                }
+            };
+            let mut events = Events::with_capacity(1024);
+            for c in crx {
+                match c {
+                    Cmd::Process => {
+                        let r = catch_unwind(AssertUnwindSafe(|| server.process_events(&mut events)));
+                        let line = match r {
+                            Ok(()) => format!("OK {}", stats_line(server.stats_recorder())),
+                            Err(_) => "PANIC".to_string(),
+                        };
+                        rtx.send(line).unwrap();
+                    }
+                    Cmd::Stats => rtx.send(format!("OK {}", stats_line(server.stats_recorder()))).unwrap(),
+                    Cmd::Quit => break,
+                }
+            }
+        })
+        .unwrap();
+    let first = rx.recv().map_err(|e| e.to_string())?;
+    if first == "PANIC" {
+        return Err("PANIC".into());
+    }
+    Ok((
+        Srv { tx, rx, port, health_port, clients: Vec::new(), sent_log: Vec::new(), dead: false },
+        first,
+    ))
+}
+
+impl Srv {
+    fn ensure_clients(&mut self, n: usize) {
+        while self.clients.len() < n {
+            let s = StdUdp::bind("127.0.0.1:0").unwrap();
+            s.set_nonblocking(true).unwrap();
+            self.clients.push(s);
+        }
+    }
+
+    fn process(&mut self) -> String {
+        if self.dead {
+            return "DEAD".into();
+        }
+        self.tx.send(Cmd::Process).unwrap();
+        match self.rx.recv() {
+            Ok(s) => {
+                if s == "PANIC" {
+                    self.dead = true;
+                }
+                s
+            }
+            Err(_) => {
+                self.dead = true;
+                "DEAD".into()
+            }
+        }
+    }
+}
+
+pub fn cmd_serve(st: &mut crate::State, arg: &str) -> String {
+    let mut it = arg.trim().splitn(2, ' ');
+    let sub = it.next().unwrap_or("");
+    let rest = it.next().unwrap_or("");
+    match sub {
+        "new" => {
+            if let Some(s) = st.srv.take() {
+                let _ = s.tx.send(Cmd::Quit);
+            }
+            let p: Vec<&str> = rest.split(' ').collect();
+            let batch: u8 = p[0].parse().unwrap();
+            let fault: u8 = p[1].parse().unwrap();
+            let level: u32 = p[2].parse().unwrap();
+            let cs = p[3] == "1";
+            let seed = unhex(p[4]);
+            let health = p.len() > 5 && p[5] == "1";
+            match start(batch, fault, level, cs, seed, health) {
+                Ok((s, line)) => {
+                    let out = format!("{} port={} health={}", line, s.port, s.health_port.unwrap_or(0));
+                    st.srv = Some(s);
+                    out
+                }
+                Err(e) => e,
+            }
+        }
+        "run" => {
+            let srv = match st.srv.as_mut() {
+                Some(s) => s,
+                None => return "NO-SERVER".into(),
+            };
+            let mut p = rest.splitn(2, ' ');
+            let nsock: usize = p.next().unwrap().parse().unwrap();
+            srv.ensure_clients(nsock);
+            let dgrams: Vec<(usize, Vec<u8>)> = p
+                .next()
+                .unwrap_or("")
+                .split(';')
+                .filter(|s| !s.is_empty())
+                .map(|s| {
+                    let mut kv = s.splitn(2, ':');
+                    (kv.next().unwrap().parse().unwrap(), unhex(kv.next().unwrap()))
+                })
+                .collect();
+            let dest = format!("127.0.0.1:{}", srv.port);
+            let t0 = now_us();
+            for (i, d) in &dgrams {
+                // send_to on loopback enqueues synchronously: arrival order = send order
+                let _ = srv.clients[*i].send_to(d, &dest);
+            }
+            let before = {
+                srv.tx.send(Cmd::Stats).unwrap();
+                srv.rx.recv().unwrap_or_default()
+            };
+            let mut status = srv.process();
+            // a poll may have been consumed by the status timer: retry while nothing happened
+            let mut tries = 0;
+            while !dgrams.is_empty() && status == before && tries < 3 {
+                status = srv.process();
+                tries += 1;
+            }
+            let t1 = now_us();
+            let mut out = Vec::new();
+            let mut buf = [0u8; 65536];
+            for i in 0..nsock {
+                // replies are already queued on loopback when process_events returns
+                loop {
+                    match srv.clients[i].recv_from(&mut buf) {
+                        Ok((n, _)) => {
+                            srv.sent_log.push(buf[..n].to_vec());
+                            out.push(format!("{}:{}", i, hex(&buf[..n])));
+                        }
+                        Err(_) => break,
+                    }
+                }
+            }
+            let nlogs = LOGS.lock().map(|g| g.len()).unwrap_or(0);
+            format!("{} T={},{} LOG={} R={}", status, t0, t1, nlogs, out.join(";"))
+        }
+        "stats" => {
+            let srv = match st.srv.as_mut() {
+                Some(s) => s,
+                None => return "NO-SERVER".into(),
+            };
+            srv.tx.send(Cmd::Stats).unwrap();
+            srv.rx.recv().unwrap_or_else(|_| "DEAD".into())
+        }
+        "scan" => {
+            let srv = match st.srv.as_mut() {
+                Some(s) => s,
+                None => return "NO-SERVER".into(),
+            };
+            let pats: Vec<Vec<u8>> = rest.split(',').filter(|s| !s.is_empty()).map(unhex).collect();
+            let logs = LOGS.lock().unwrap();
+            let mut all_logs: Vec<u8> = Vec::new();
+            for (_, s) in logs.iter() {
+                all_logs.extend_from_slice(s.as_bytes());
+                // no separator: a secret split across two records is still found
+            }
+            let mut hits = Vec::new();
+            for (k, p) in pats.iter().enumerate() {
+                if p.is_empty() {
+                    continue;
+                }
+                if all_logs.windows(p.len()).any(|w| w == &p[..]) {
+                    hits.push(format!("log:{}", k));
+                }
+                if srv.sent_log.iter().any(|d| d.windows(p.len()).any(|w| w == &p[..])) {
+                    hits.push(format!("dgram:{}", k));
+                }
+            }
+            format!("SCAN logs={} logbytes={} dgrams={} hits={}", logs.len(), all_logs.len(), srv.sent_log.len(),
+                if hits.is_empty() { "-".to_string() } else { hits.join(",") })
+        }
+        "logs" => {
+            let mut logs = LOGS.lock().unwrap();
+            let s: Vec<String> = logs.iter().map(|(l, s)| format!("{}:{}", l, hex(s.as_bytes()))).collect();
+            logs.clear();
+            format!("LOGS {}", s.join(","))
+        }
+        "health" => {
+            let srv = match st.srv.as_mut() {
+                Some(s) => s,
+                None => return "NO-SERVER".into(),
+            };
+            let n: usize = rest.trim().parse().unwrap();
+            let hp = match srv.health_port {
+                Some(p) => p,
+                None => return "NO-HEALTH".into(),
+            };
+            use std::io::Read;
+            let mut conns = Vec::new();
+            for _ in 0..n {
+                if let Ok(c) = std::net::TcpStream::connect(("127.0.0.1", hp)) {
+                    c.set_read_timeout(Some(Duration::from_millis(300))).unwrap();
+                    conns.push(c);
+                }
+            }
+            let status = srv.process();
+            let mut ok = 0;
+            for c in conns.iter_mut() {
+                let mut b = [0u8; 128];
+                if let Ok(k) = c.read(&mut b) {
+                    if b[..k].starts_with(b"HTTP/1.1 200 OK") {
+                        ok += 1;
+                    }
+                }
+            }
+            format!("{} HEALTH connected={} answered={}", status, conns.len(), ok)
+        }
+        "drop" => {
+            if let Some(s) = st.srv.take() {
+                let _ = s.tx.send(Cmd::Quit);
+            }
+            "OK".into()
+        }
+        _ => "BAD-SERVE-CMD".into(),
+    }
+}
